@@ -489,7 +489,7 @@ impl GroupAggregator {
                         if let Some(microseconds) = x.num_microseconds() {
                             microseconds.checked_mul(microseconds).map(|squared| IntervalType::microseconds(squared))
                         } else {
-                            x.num_milliseconds().checked_mul(x.num_milliseconds()).map(|squared| IntervalType::milliseconds(squared))
+                            x.num_milliseconds().checked_mul(x.num_milliseconds()).and_then(|squared| IntervalType::try_milliseconds(squared))
                         }
                     }
                 ).ok_or(match column_value {
@@ -606,10 +606,16 @@ impl GroupAggregator {
     }
 }
 
-/// A running INT sum must not overflow silently (or panic): adding `value` to `sum` has to fit
+/// A running INT or INTERVAL sum must not overflow silently (or panic): adding `value` to `sum` has to fit
 fn ensure_sum_fits(sum: &Value, value: &Value) -> ExecutionResult<()> {
     if let (Value::Int(sum), Value::Int(value)) = (sum, value) {
         if sum.checked_add(*value).is_none() {
+            return Err(ExecutionError::NumericOverflow);
+        }
+    }
+
+    if let (Value::Interval(sum), Value::Interval(value)) = (sum, value) {
+        if sum.checked_add(value).is_none() {
             return Err(ExecutionError::NumericOverflow);
         }
     }
